@@ -171,7 +171,7 @@ def gen_mux(rng, tier, long_run=False):
 def gen_frag(rng, tier):
     vc = rng.choice(['h264', 'h265', 'av1', 'vp9'])
     cfg = {'vc': vc, 'w': 640, 'h': 480, 'timescale': rng.choice([90000, 90000, 1000, 48000]), 'fragms': rng.choice([100, 500, 2000]),
-           'via': 'config', 'unit': 1, 'unit1': True, 'judge_config': True,
+           'via': 'config', 'unit': 1, 'unit1': True, 'judge_config': True, 'w32': W30, 'i32': W30,
            'facets': {'bytes': True, 'timing': True, 'tree': True, 'raw': rng.random() < 0.3}}
     if vc in ('h264', 'h265'):
         cfg['sps'] = SPS_A
@@ -339,7 +339,7 @@ def gen_fraginit(rng, tier):
                 k += 1
                 w, h = dims[k % len(dims)]
                 cfg = {'vc': vc, 'w': w, 'h': h, 'timescale': 90000, 'fragms': 2000, 'via': via, 'unit': 1, 'unit1': True,
-                       'judge_config': True, 'must_build': True,
+                       'judge_config': True, 'must_build': True, 'w32': W30, 'i32': W30,
                        'facets': {'bytes': True, 'timing': True, 'tree': True, 'raw': True}}
                 if vc == 'h264':
                     cfg['sps'] = ps(0x67, n)
@@ -364,7 +364,7 @@ def gen_fraginit(rng, tier):
     # builder without the required parameters must fail
     for vc, missing in [('h264', 'sps'), ('h264', 'pps'), ('h265', 'vps'), ('h265', 'sps'), ('h265', 'pps'), ('av1', 'av1'), ('vp9', 'vp9'), ('h264', 'video')]:
         cfg = {'vc': vc, 'w': 640, 'h': 480, 'timescale': 90000, 'fragms': 2000, 'via': 'builder', 'unit': 1, 'unit1': True,
-               'judge_config': False, 'must_build': False,
+               'judge_config': False, 'must_build': False, 'w32': W30, 'i32': W30,
                'facets': {'bytes': False, 'timing': False, 'tree': False, 'raw': False}}
         full = {'sps': ps(0x67, 8), 'pps': ps(0x68, 4), 'vps': ps(0x40, 4), 'av1': [0x0a, len(AV1_SEQ)] + AV1_SEQ,
                 'vp9': {'width': 640, 'height': 480, 'profile': 0, 'bit_depth': 8, 'color_space': 1, 'transfer_function': 1, 'matrix_coefficients': 1, 'level': 0, 'full_range_flag': 0}}
@@ -543,6 +543,341 @@ def gen_nallist(rng, tier):
     return out
 
 
+def be(v, n=8):
+    return [(v >> (8 * (n - 1 - i))) & 0xff for i in range(n)]
+
+
+def wideint(v):
+    return v if v < (1 << 31) else be(v, 8)
+
+
+F64_BITS = [0x0000000000000000, 0x8000000000000000, 0x0000000000000001, 0x000fffffffffffff, 0x0010000000000000,
+            0x7fefffffffffffff, 0x7ff0000000000000, 0xfff0000000000000, 0x7ff8000000000000, 0x7ff0000000000001,
+            0xfff8000000000000, 0x3ff0000000000000, 0xbff0000000000000, 0x43e0000000000000, 0x4330000000000000,
+            0x40c3880000000000, 0x7e37e43c8800759c, 0x3eb0c6f7a0b5ed8d, 0x433fffffffffffff, 0x4340000000000000]
+
+
+def rawtok(rng):
+    b = rng.choice(F64_BITS) if rng.random() < 0.7 else rng.getrandbits(64)
+    return {'k': 'raw', 'bits': be(b)}
+
+
+def gen_extreme(rng, tier):
+    """Argument extremes for every progressive entry point; only totality (no panic / hang) is judged."""
+    vc = rng.choice(['h264', 'h265', 'av1', 'vp9'])
+    ac = rng.choice(['none', 'aac', 'opus'])
+    ext32 = [0, 1, 2, 255, 256, 65535, 65536, 65537, (1 << 31) - 1, 1 << 31, (1 << 32) - 1]
+    ext16 = [0, 1, 2, 7, 8, 9, 15, 16, 255, 256, 65535]
+    cfg = base_cfg(vc, ac, w=wideint(rng.choice(ext32 + [640])), h=wideint(rng.choice(ext32 + [480])),
+                   rate=wideint(rng.choice(ext32 + [48000, 44100, 96000])), ch=rng.choice(ext16))
+    cfg['nojudge'] = True
+    cfg['fps_bits'] = be(rng.choice(F64_BITS))
+    cfg['fast'] = rng.random() < 0.5
+    cfg['facets'] = {'bytes': False, 'timing': False, 'tree': False, 'raw': False}
+    if rng.random() < 0.5:
+        m = {}
+        if rng.random() < 0.5:
+            m['title'] = list(rng.choice(['', 'x', 'é' * 40000, '\x00', 'a' * 70000]).encode())
+        if rng.random() < 0.5:
+            m['ct_raw'] = be(rng.choice([0, 1, 86399, 86400, (1 << 31), (1 << 32) - 1, (1 << 32), (1 << 53), (1 << 63) - 1, (1 << 63), (1 << 64) - 1, 253402300799, 253402300800]))
+        if rng.random() < 0.5:
+            m['lang'] = list(rng.choice([b'', b'e', b'en', b'eng', b'ENG', b'engl', b'\x00\x00\x00', b'\xff\xfe\xfd', 'ééé'.encode(), b'~~~', b'   ']))
+        cfg['meta'] = m
+    calls = []
+    nframes = rng.randrange(0, 6)
+    t = 0
+    for i in range(nframes):
+        r = rng.random()
+        good_v = video_frame(rng, vc, i == 0, rng.randrange(1, 20))
+        data = rng.choice([good_v, good_v, [], [0], [0, 0, 1], [0, 0, 0, 1], good_v[:rng.randrange(0, len(good_v))], pad(rng, 3),
+                           [0x49, 0x83], [0x49, 0x83, 0x42], [0x0a], [0x0a, 0xff, 0xff, 0xff, 0xff, 0xff, 0xff, 0xff, 0xff, 0x7f]])
+        tok = rawtok(rng) if r < 0.35 else rng.choice([fin(t), fin(t), {'k': 'huge'}, {'k': 'nan'}, {'k': 'negzero'}, fin(0), fin((1 << 31) - 2)])
+        op = rng.choice(['wv', 'wvd', 'ev', 'wa', 'ea'])
+        if op == 'wv':
+            calls.append({'op': 'wv', 'pts': tok, 'data': data, 'key': rng.random() < 0.7})
+        elif op == 'wvd':
+            calls.append({'op': 'wvd', 'pts': tok, 'dts': rawtok(rng) if rng.random() < 0.3 else rng.choice([fin(t), {'k': 'huge'}, fin(0)]), 'data': data, 'key': rng.random() < 0.7})
+        elif op == 'ev':
+            calls.append({'op': 'ev', 'data': data, 'ms': wideint(rng.choice([0, 1, 33, 1000, (1 << 31) - 1, (1 << 32) - 1]))})
+        elif op == 'wa':
+            a = audio_frame(rng, ac if ac != 'none' else 'aac', rng.randrange(1, 10))
+            calls.append({'op': 'wa', 'pts': tok, 'data': rng.choice([a, a, [], a[:rng.randrange(0, len(a))], [0xff, 0xf1], [0xfc], [0xff], [3], [3, 0], [3, 0x80]])})
+        else:
+            a = audio_frame(rng, ac if ac != 'none' else 'opus', rng.randrange(1, 10))
+            calls.append({'op': 'ea', 'data': rng.choice([a, [], a[:3]]), 'n': wideint(rng.choice([0, 1, 960, 1024, (1 << 31) - 1, (1 << 32) - 1]))})
+        t += rng.choice([1, 3, 9000, 1 << 20])
+    calls.append({'op': 'fin', 'how': rng.choice(['in_place_stats', 'in_place', 'finish', 'finish_with_stats', 'flush'])})
+    if rng.random() < 0.5:
+        calls.append({'op': 'wv', 'pts': rawtok(rng), 'data': [1], 'key': True})
+        calls.append({'op': 'fin', 'how': 'in_place_stats'})
+    return {'cfg': cfg, 'calls': calls}
+
+
+def gen_extremefrag(rng, tier):
+    vc = rng.choice(['h264', 'h265', 'av1', 'vp9'])
+    ext32 = [0, 1, 2, 1000, 65535, 65536, 90000, (1 << 31) - 1, 1 << 31, (1 << 32) - 1]
+    cfg = {'vc': vc, 'w': wideint(rng.choice(ext32)), 'h': wideint(rng.choice(ext32)), 'timescale': wideint(rng.choice(ext32)),
+           'fragms': wideint(rng.choice(ext32)), 'via': rng.choice(['config', 'config', 'builder']), 'unit': 1, 'unit1': False,
+           'judge_config': False, 'nojudge': True, 'w32': W30, 'i32': W30,
+           'facets': {'bytes': False, 'timing': False, 'tree': False, 'raw': False}}
+    lens = [0, 1, 2, 3, 4, 14, 15, 16, 300, 65535, 65536, 70000]
+    if vc in ('h264', 'h265') or rng.random() < 0.3:
+        cfg['sps'] = [0x67] * rng.choice(lens)
+        cfg['pps'] = [0x68] * rng.choice(lens)
+    if vc == 'h265' or rng.random() < 0.2:
+        cfg['vps'] = [0x40] * rng.choice(lens)
+    if vc == 'av1' or rng.random() < 0.2:
+        base = [0x0a, len(AV1_SEQ)] + AV1_SEQ
+        cfg['av1'] = rng.choice([base, [], [0x0a], base[:rng.randrange(0, len(base))], [0x0a, 0xff, 0xff, 0xff, 0xff, 0xff, 0xff, 0xff, 0x7f], [0x0a, 1, 0xe0], [0x0a, 1, 0x80]])
+    if vc == 'vp9' or rng.random() < 0.2:
+        cfg['vp9'] = {'width': 640, 'height': 480, 'profile': rng.choice([0, 1, 2, 3, 4, 255]), 'bit_depth': rng.choice([0, 8, 10, 12, 255]),
+                      'color_space': rng.choice([0, 7, 255]), 'transfer_function': rng.choice([0, 255]), 'matrix_coefficients': rng.choice([0, 255]),
+                      'level': rng.choice([0, 255]), 'full_range_flag': rng.choice([0, 1, 255])}
+    big = [0, 1, (1 << 32) - 1, 1 << 32, (1 << 63) - 1, 1 << 63, (1 << 64) - 3001, (1 << 64) - 2, (1 << 64) - 1]
+    calls = []
+    for i in range(rng.randrange(0, 7)):
+        r = rng.random()
+        if r < 0.15:
+            calls.append({'op': 'ff'})
+        elif r < 0.25:
+            calls.append({'op': 'fr'})
+        elif r < 0.35:
+            calls.append({'op': 'fd'})
+        elif r < 0.4:
+            calls.append({'op': 'fi'})
+        d = rng.choice(big)
+        p = rng.choice(big)
+        calls.append({'op': 'fw', 'pts': 0, 'dts': 0, 'pts_add': be(p), 'dts_add': be(d), 'data': pad(rng, rng.choice([0, 1, 5])), 'sync': rng.random() < 0.5})
+    calls += [{'op': 'fr'}, {'op': 'fd'}, {'op': 'ff'}, {'op': 'fi'}, {'op': 'ff'}]
+    return {'kind': 'frag', 'cfg': cfg, 'calls': calls}
+
+
+def header_mutations(rng, tier):
+    """Every prefix and every single-bit flip of generated AV1 / VP9 / ADTS / Opus / Annex B headers."""
+    seeds = []
+    for vc in ('h264', 'h265', 'av1', 'vp9'):
+        seeds.append(video_frame(rng, vc, True, 4))
+        seeds.append(video_frame(rng, vc, False, 3))
+    seeds.append([0x0a, len(AV1_SEQ)] + AV1_SEQ)
+    seeds.append(adts(rng, 4))
+    seeds.append(adts(rng, 3, crc=True))
+    seeds += [[0x78, 1, 2], [0x7b, 0x02, 1, 2], [0x03, 0x80 | 5, 9, 9]]
+    out = []
+    for sd in seeds:
+        for n in range(len(sd) + 1):
+            out.append(sd[:n])
+        step = 1 if tier != 'quick' else 3
+        for bit in range(0, 8 * len(sd), step):
+            m = list(sd)
+            m[bit // 8] ^= 1 << (7 - bit % 8)
+            out.append(m)
+    return out
+
+
+def gen_mutframes(rng, tier):
+    """The mutated headers as frame data of every entry point (first frame and later frame)."""
+    out = []
+    muts = header_mutations(rng, tier)
+    per = 12
+    for vc in ('h264', 'h265', 'av1', 'vp9'):
+        for ac in ('aac', 'opus'):
+            for i in range(0, len(muts), per):
+                if tier == 'quick' and (i // per) % 3:
+                    continue
+                cfg = base_cfg(vc, ac)
+                cfg['nojudge'] = True
+                cfg['facets'] = {'bytes': False, 'timing': False, 'tree': False, 'raw': False}
+                calls = []
+                t = 0
+                for j, m in enumerate(muts[i:i + per]):
+                    calls.append({'op': ['wv', 'ev', 'wvd'][j % 3], 'pts': fin(t), 'dts': fin(t), 'data': m, 'key': j % 2 == 0, 'ms': 33})
+                    calls.append({'op': ['wa', 'ea'][j % 2], 'pts': fin(t), 'data': m, 'n': 960})
+                    if j == 5:
+                        calls.append({'op': 'wv', 'pts': fin(t + 1), 'data': video_frame(rng, vc, True, 3), 'key': True})
+                    t += 9000
+                calls.append({'op': 'fin', 'how': 'in_place_stats'})
+                out.append({'cfg': cfg, 'calls': calls})
+    return out
+
+
+UNITS = [
+    # (unit, w32 = floor((2^32-1)/U), i32 = floor((2^31-1)/U), i32n = floor(2^31/U))
+    (1 << 30, 3, 1, 2),
+    ((1 << 31) - 1, 2, 1, 1),
+    ((1 << 32) - 1, 1, 0, 0),
+    (1 << 32, 0, 0, 0),
+    (1 << 31, 1, 0, 1),
+]
+
+
+def gen_bound(rng, tier):
+    """Boundary instances (numeric embedding): all timestamps are multiples of a unit U chosen so that small
+    multiples land just below / on / above the 32-bit field limits (sample delta, total duration, composition offset)."""
+    out = []
+    dts_patterns = [[0, 1], [0, 1, 2], [0, 2], [0, 3], [0, 4], [0, 1, 2, 3], [0, 1, 2, 3, 4], [0, 2, 4], [1, 2], [3, 4, 5], [0, 5], [0, 1, 5], [0, 5, 6], [0, 4, 5], [0, 1, 6, 7]]
+    cts_patterns = [[0], [1], [2], [-1], [-2], [3], [1, 0], [0, 2], [2, 1, 0]]
+    for (U, w32, i32, i32n) in UNITS:
+        for vc in (['h264', 'vp9'] if tier == 'quick' else ['h264', 'h265', 'av1', 'vp9']):
+            for ac in ('none', 'aac'):
+                for dp in dts_patterns:
+                    for cp in cts_patterns:
+                        if tier == 'quick' and (len(out) % 2):
+                            out.append(None)
+                            continue
+                        cfg = base_cfg(vc, ac, mode='tick', unit=wideint(U) if U >= (1 << 31) else U, w32=w32, i32=i32, i32n=i32n, w32dur=w32)
+                        cfg['facets'] = {'bytes': True, 'timing': True, 'tree': False, 'raw': False}
+                        calls = []
+                        ok = True
+                        for k, d in enumerate(dp):
+                            c = cp[k % len(cp)]
+                            if d + c < 0:
+                                c = 0
+                            data = video_frame(rng, vc, k == 0, 3 + k)
+                            if c == 0 and k % 2 == 0:
+                                calls.append({'op': 'wv', 'pts': fin(d), 'data': data, 'key': k == 0})
+                            else:
+                                calls.append({'op': 'wvd', 'pts': fin(d + c), 'dts': fin(d), 'data': data, 'key': k == 0})
+                            if ac != 'none' and k < 3:
+                                calls.append({'op': 'wa', 'pts': fin(max(d, dp[0] + (cp[0] if dp[0] + cp[0] >= 0 else 0))), 'data': audio_frame(rng, ac, 4)})
+                        calls.append({'op': 'fin', 'how': 'in_place_stats'})
+                        out.append({'cfg': cfg, 'calls': calls})
+    return [o for o in out if o is not None]
+
+
+def gen_boundfrag(rng, tier):
+    out = []
+    dts_patterns = [[0, 1], [0, 1, 2], [0, 3], [0, 4], [0, 1, 5], [2, 2, 3], [0, 5, 6]]
+    cts_patterns = [[0], [1], [2], [-1], [-2], [3]]
+    for (U, w32, i32, i32n) in UNITS:
+        for dp in dts_patterns:
+            for cp in cts_patterns:
+                cfg = {'vc': 'h264', 'w': 640, 'h': 480, 'timescale': 90000, 'fragms': 2000, 'via': 'config', 'unit': wideint(U) if U >= (1 << 31) else U,
+                       'unit1': False, 'judge_config': False, 'w32': w32, 'i32': i32, 'i32n': i32n, 'sps': SPS_A, 'pps': PPS_A,
+                       'facets': {'bytes': True, 'timing': True, 'tree': False, 'raw': False}}
+                calls = []
+                for k, d in enumerate(dp):
+                    c = cp[k % len(cp)]
+                    if d + c < 0:
+                        c = 0
+                    calls.append({'op': 'fw', 'pts': d + c, 'dts': d, 'data': pad(rng, 3 + k), 'sync': k == 0})
+                    if k == 1:
+                        calls.append({'op': 'ff'})
+                calls.append({'op': 'ff'})
+                out.append({'kind': 'frag', 'cfg': cfg, 'calls': calls})
+    return out
+
+
+def gen_cli(rng, tier):
+    """Option records for the muxide binary: a valid baseline, every option varied on its own,
+    seeded random combinations; validate and info runs."""
+    out = []
+    def vfile(vc, enc='hex', kind='key'):
+        if enc == 'absent':
+            return {'enc': 'absent', 'data': []}
+        d = {'key': video_frame(rng, vc, True, 5), 'delta': video_frame(rng, vc, False, 4), 'garbage': pad(rng, 6), 'none': []}[kind]
+        return {'enc': enc, 'data': d}
+    def afile(ac, enc='hex', kind='good'):
+        if enc == 'absent':
+            return {'enc': 'absent', 'data': []}
+        d = {'good': audio_frame(rng, ac, 6), 'garbage': pad(rng, 5), 'none': []}[kind]
+        return {'enc': enc, 'data': d}
+    VN = {'': 'h264', 'h264': 'h264', 'H264': 'h264', 'h.264': 'h264', 'avc': 'h264', 'AVC': 'h264', 'h265': 'h265', 'H.265': 'h265', 'hevc': 'h265',
+          'av1': 'av1', 'AV1': 'av1', 'vp9': 'vp9', 'Vp9': 'vp9', 'mpeg2': None, 'h266': None}
+    AN = {'': 'aac', 'aac': 'aac', 'AAC': 'aac', 'aac-lc': 'aac', 'aac-main': 'aac', 'aac-ssr': 'aac', 'aac-ltp': 'aac', 'aac-he': 'aac', 'aac-hev2': 'aac',
+          'opus': 'opus', 'Opus': 'opus', 'none': 'none', 'mp3': None}
+    def base():
+        return {'vcodec_as_given': 'h264', 'has_w': True, 'w': 640, 'has_h': True, 'h': 480, 'has_fps': True, 'fps_text': '30', 'fps_milli': 30000,
+                'acodec_as_given': '', 'has_rate': False, 'rate': 48000, 'has_ch': False, 'ch': 2, 'json': False, 'verbose': False, 'no_progress': True,
+                'dry_run': False, 'fragmented': False, 'venc': 'hex', 'vkind': 'key', 'aenc': 'absent', 'akind': 'good'}
+    def finish(o):
+        vn = o['vcodec_as_given']
+        an = o['acodec_as_given']
+        o['vcodec'] = vn.lower()
+        o['acodec'] = an.lower()
+        vc = VN.get(vn) or 'h264'
+        ac = AN.get(an) or 'aac'
+        if ac == 'none':
+            ac = 'aac'
+        o['video'] = vfile(vc, o.pop('venc'), o.pop('vkind'))
+        o['audio'] = afile(ac, o.pop('aenc'), o.pop('akind'))
+        return {'kind': 'cli', 'cmd': 'mux', 'opts': o}
+    def withaudio(o):
+        o.update({'aenc': 'hex', 'has_rate': True, 'has_ch': True})
+        return o
+    # baseline and one-at-a-time variations
+    singles = []
+    for vn in VN:
+        singles.append({'vcodec_as_given': vn})
+    for (w, h) in [(320, 240), (4096, 2160), (319, 240), (320, 239), (4097, 2160), (4096, 2161), (0, 0), (1920, 1080), (65536, 480)]:
+        singles.append({'w': w, 'h': h})
+    singles += [{'has_w': False}, {'has_h': False}, {'has_fps': False}]
+    for (t, m) in [('29.97', 29970), ('120', 120000), ('120.001', 120001), ('0', 0), ('0.001', 1), ('1', 1000), ('60', 60000), ('121', 121000)]:
+        singles.append({'fps_text': t, 'fps_milli': m})
+    for enc in ['odd', 'nonhex', 'empty', 'binary', 'missing', 'absent']:
+        singles.append({'venc': enc})
+    for kind in ['delta', 'garbage']:
+        singles.append({'vkind': kind})
+    singles += [{'json': True}, {'verbose': True}, {'no_progress': False}, {'dry_run': True}, {'fragmented': True},
+                {'title': list(b'My Title')}, {'title': list('Tïtlé ☃'.encode())}, {'language': list(b'eng')}, {'language': list(b'fra'), 'title': list(b'x')}]
+    for s1 in singles:
+        o = base()
+        o.update(s1)
+        out.append(finish(o))
+    asingles = []
+    for an in AN:
+        asingles.append({'acodec_as_given': an})
+    for r in [8000, 44100, 48000, 192000, 192001, 0, 1]:
+        asingles.append({'rate': r})
+    for c in [1, 2, 6, 8, 0, 9, 255]:
+        asingles.append({'ch': c})
+    asingles += [{'has_rate': False}, {'has_ch': False}]
+    for enc in ['odd', 'nonhex', 'empty', 'binary', 'missing']:
+        asingles.append({'aenc': enc})
+    asingles += [{'akind': 'garbage'}, {'json': True}, {'venc': 'absent'}, {'vcodec_as_given': 'hevc'}, {'vcodec_as_given': 'vp9', 'acodec_as_given': 'opus'},
+                 {'vcodec_as_given': 'av1', 'acodec_as_given': 'aac-he'}, {'dry_run': True, 'aenc': 'missing'}, {'dry_run': True}]
+    for s1 in asingles:
+        o = withaudio(base())
+        o.update(s1)
+        out.append(finish(o))
+    # seeded random combinations
+    for _ in range(60 if tier == 'quick' else 1500):
+        o = base()
+        if rng.random() < 0.6:
+            withaudio(o)
+        for s1 in rng.sample(singles + asingles, rng.choice([1, 2, 2, 3])):
+            o.update(s1)
+        out.append(finish(o))
+    # info: files produced by the library (well-formed) and damaged / arbitrary files (termination only)
+    lay = gen_layout(rng, 'quick')
+    picks = rng.sample(lay, 40 if tier == 'quick' else len(lay))
+    for k, o in enumerate(picks):
+        o['cfg']['facets'] = {'bytes': False, 'timing': False, 'tree': False, 'raw': False}
+        if o['cfg'].get('w', 0) > 65535 or o['cfg'].get('h', 0) > 65535:
+            continue
+        out.append({'kind': 'cli', 'cmd': 'info', 'from': {'cfg': o['cfg'], 'calls': o['calls']}, 'mutate': 'none', 'wellformed': True,
+                    'opts': {'json': True}})
+        for m in (['truncate', 'flip', 'zero_size', 'append'] if k % 4 == 0 or tier != 'quick' else []):
+            for rep in range(3 if tier == 'quick' else 30):
+                out.append({'kind': 'cli', 'cmd': 'info', 'from': {'cfg': o['cfg'], 'calls': o['calls']}, 'mutate': m,
+                            'mutate_at': rng.randrange(0, 100000), 'wellformed': False, 'opts': {'json': rep % 2 == 0}})
+    for n in [0, 1, 7, 8, 9, 16, 100, 1000]:
+        for rep in range(2 if tier == 'quick' else 20):
+            out.append({'kind': 'cli', 'cmd': 'info', 'file': [rng.randrange(0, 256) for _ in range(n)], 'wellformed': False, 'opts': {'json': True}})
+    out.append({'kind': 'cli', 'cmd': 'info', 'file': [0, 0, 0, 0, 0x66, 0x74, 0x79, 0x70] * 4, 'wellformed': False, 'opts': {'json': True}})
+    out.append({'kind': 'cli', 'cmd': 'info', 'file': [0, 0, 0, 1, 0x66, 0x74, 0x79, 0x70] * 40, 'wellformed': False, 'opts': {'json': True}})
+    out.append({'kind': 'cli', 'cmd': 'info', 'file': [0xff, 0xff, 0xff, 0xff, 0x66, 0x74, 0x79, 0x70] * 4, 'wellformed': False, 'opts': {'json': True}})
+    # validate
+    encs = ['hex', 'odd', 'nonhex', 'empty', 'binary', 'missing', 'absent']
+    for ve in encs:
+        for ae in encs:
+            for js in (False, True):
+                if ve == 'absent' and ae == 'absent':
+                    continue
+                out.append({'kind': 'cli', 'cmd': 'validate', 'opts': {'video': vfile('h264', ve, 'garbage' if ve != 'absent' else 'none'),
+                                                                        'audio': afile('aac', ae, 'garbage' if ae != 'absent' else 'none'), 'json': js}})
+    return out
+
+
 def generate(kind, n, seed, tier):
     rng = random.Random((seed * 1000003) ^ hash(kind) & 0xffff if False else seed * 1000003 + sum(map(ord, kind)))
     out = []
@@ -564,7 +899,23 @@ def generate(kind, n, seed, tier):
         return gen_vp9hdr(rng, tier)
     if kind == 'nallist':
         return gen_nallist(rng, tier)
+    if kind == 'cli':
+        return gen_cli(rng, tier)
+    if kind == 'bound':
+        return gen_bound(rng, tier)
+    if kind == 'boundfrag':
+        return gen_boundfrag(rng, tier)
+    if kind == 'mutbytes':
+        return header_mutations(rng, tier)
+    if kind == 'mutframes':
+        return gen_mutframes(rng, tier)
     for _ in range(n):
+        if kind == 'extreme':
+            out.append(gen_extreme(rng, tier))
+            continue
+        if kind == 'extremefrag':
+            out.append(gen_extremefrag(rng, tier))
+            continue
         if kind == 'mux':
             out.append(gen_mux(rng, tier))
         elif kind == 'frag':
